@@ -1,4 +1,4 @@
 import Drv.Loop
+import Drv.Offline
 
-/-- stub: replaced by the workstream's handler -/
-def main : IO Unit := Drv.runDriver (fun _ _ => none)
+def main : IO Unit := Drv.runDriver Drv.Offline.handle
